@@ -200,7 +200,10 @@ func c17Gen(tier string, emit func(any)) {
 					cp[k] = v
 				}
 				emit(&C17Case{PatchID: id, Changes: patches[id], Slots: cp, Sites: sites, File: c17Render(cp, sites)})
-				emit(&C17Case{PatchID: id, Changes: patches[id], Slots: cp, Sites: sites, File: c17Render(cp, sites), Mode: "cli"})
+				if tier == "thorough" || len(cp) <= 1 || sites == "d2" || sites == "d2+d3" || sites == "d4/funcs" || sites == "d2/sitefirst" {
+					// quick: two-comment placements go through the command line on four of the eight site configurations
+					emit(&C17Case{PatchID: id, Changes: patches[id], Slots: cp, Sites: sites, File: c17Render(cp, sites), Mode: "cli"})
+				}
 			}
 		}
 	}
